@@ -130,7 +130,9 @@ def run(ctx, deep, model_ok):
             continue
         version = rng.choice([None, None, 'gfa1', 'gfa2'])
         dialect = rng.choice(['standard', 'standard', 'rgfa'])
-        vlevel = rng.choice([1, 2, 3])
+        vlevel = rng.choice([0, 1, 2, 3])
+        if vlevel == 0 and (any(x.startswith('VN') for x in names) or dialect != 'standard'):
+            vlevel = 1        # the header and dialect cross-checks are validations: level 0 leaves them out by design
         full = complete_refs(names) and dialect == 'standard'
         if full and i % 3 == 0:
             full = 'file'
